@@ -7,9 +7,16 @@ import JF.Lemmas.CellsStep
 
 Model: `JF.Model.Cells` (after `cuboid_cells.py`, `cuboid_periodic_cells.py`).
 
-Part A (this file, first half): index structure and torus laws.  They hold for **every** scalar type,
-every float stepper and every fuel, i.e. also for the binary64 reading the driver runs: they only
-concern identifiers.
+Contents
+* A, B — identifiers and torus laws (index bijection, the constructor enumerates the identifiers, nearby /
+  neighbour = index arithmetic mod n, symmetric, reflexive).  They hold for EVERY scalar type, every float
+  stepper and every fuel, i.e. also for the binary64 reading the driver runs: they only concern identifiers.
+* C — positions in the exact reading (`ℚ`): partition of the box, `relative_cell` / `translate` as
+  `(c ∓ r) mod n`, mutual inverses, translation invariance of nearby.  Hypotheses `Geo` / `GeoIdeal` describe
+  the recorded extents (within `side/8` of / equal to the ideal `[i·side, (i+1)·side]`); they are NOT derived
+  from the constructor, whose float stepping has no exact-reading counterpart — part D is the bridge.
+* D — rounding-abstract reading of the stepping loops (`extent_sound`, `cells_abut`), any scalar type.
+* E — binary64 counterexamples (finding F2: the top of the box is not covered), kernel-evaluated on `Float`.
 -/
 namespace JF.C16
 open JF JF.Cells
